@@ -26,6 +26,7 @@ RULE = (
     "change; non-trivial = >=2 elements sharing a node. renumbering: Elastic/Thermal with Dirichlet+Neumann on a mesh and "
     "its random renumbering; non-trivial = non-identity permutation, free dofs and a non-zero load. distinct = sha1 of the case."
     ' Round 8: large_system has a HEXA8 block with more than 2**22 element entries per slot; connect_dtypes enumerates narrow integer types of the connectivity on a grid whose dof numbers leave their range.'
+    ' Round 9: a third of the elastic / thermal cases of real_simus carry 1-2 orphan nodes.'
 )
 ASSUMPTIONS = [
     "oracle = dense element-by-element re-summation written from groupElem.connect with dof = node*dof_n + component "
